@@ -34,22 +34,24 @@ LEAN_TARGETS = ["PpciVerif.Props.C01", "Drivers.C01"]
 LEVEL = "proof"
 LEVEL_TEXT = (
     "PARTIAL claim (integer expressions and object layout, x86_64). Lean theorems, for ALL expressions of any size and nesting built "
-    "from variables of the 11 integer types, integer constants (all bases/suffixes), character constants, sizeof(type), unary + - ~ !, "
-    "binary + - * / % << >> & | ^ < > <= >= == != && ||, ?: and casts, and for ALL values of the variables: (typing) the model of "
-    "ppci's semantic actions elaborates every expression C types and gives it exactly C's type (integer promotions, usual arithmetic "
-    "conversions, constant types, result types), with a finite table theorem stating the exact conversions inserted for every operator on "
-    "every pair of the 10 BasicTypes; (values) whenever C defines the value (Spec.CExpr = Spec.CInt + variables; undefined behaviour = no "
-    "value) the IR instructions the model of the code generator emits (IR operator and IR type per node; comparison / && || ! ?: as "
-    "conditional-jump skeletons) evaluate to that value under the instruction semantics of the reference IR interpreter Spec.IR, and "
-    "the emitted condition code branches on value != 0; (tables) on every target whose C front-end builds, the IR type of each integer "
-    "C type has its width and signedness and sizeof has an unsigned type; (layout) for all struct/union/array types over basic types "
-    "and pointers without bit-fields, size, alignment and member offsets computed by the model of CContext equal the System V x86-64 "
-    "layout (Spec.CLayout: members at the lowest aligned offset, size rounded up to the alignment). The models are hand-written; their "
-    "tables are re-checked (decide) against a dump of the live objects on every run, and they are tied to the source by a differential "
-    "run that is EXHAUSTIVE over operator x type x type for typing and emitted code and sampled for nested expressions, operand values and "
-    "layouts. NOT claimed (only searched by differential runs, no theorem): statements, control flow, pointers and pointer arithmetic, "
-    "arrays as values, calls, assignment and ++/--, switch, loops, the parser (precedence), bit-fields, anonymous members, floating "
-    "point, enums, targets other than x86_64 for typing/values/layout."
+    "from variables of the 11 integer types, integer constants (all bases/suffixes), character constants, unary + - ~ !, binary "
+    "+ - * / % << >> & | ^ < > <= >= == != && ||, ?: and casts, and for ALL values of the variables: (typing) the model of ppci's "
+    "semantic actions elaborates every expression C types and gives it exactly C's type (integer promotions, usual arithmetic "
+    "conversions, constant types, result types), with finite table theorems stating the exact conversions inserted for every operator "
+    "on every pair of the 10 BasicTypes; (values) whenever C defines the value (Spec.CExpr = Spec.CInt + variables; undefined behaviour "
+    "= no value) the IR instructions the model of the code generator emits (IR operator and IR type per node; comparison / && || ! ?: "
+    "as conditional-jump skeletons) evaluate to that value under the instruction semantics of the reference IR interpreter Spec.IR, "
+    "and the emitted condition code branches on value != 0; (layout) for all struct/union/array types over basic types and pointers "
+    "without bit-fields, size, alignment and member offsets computed by the model of CContext equal the System V x86-64 layout "
+    "(members at the lowest aligned offset, size rounded up to the alignment; holds after fix 755c1e7); (tables) on every target whose "
+    "C front-end builds the IR type of each integer C type has its width and signedness EXCEPT unsigned int on msp430 (open finding). "
+    "sizeof expressions are EXCLUDED from the typing and value theorems: ppci gives them a signed type (open finding, Lean-proved "
+    "witnesses). The models are hand-written; their tables are re-checked (decide) against a dump of the live objects on every run, "
+    "and they are tied to the source by a differential run that is EXHAUSTIVE over operator x type x type for typing and emitted code "
+    "and sampled for nested expressions, operand values and layouts. NOT claimed (only searched by differential runs against gcc, no "
+    "theorem): statements, control flow, pointers and pointer arithmetic, arrays as values, calls, assignment and ++/--, switch, "
+    "loops, the parser (precedence), bit-fields, anonymous members, floating point, enums, targets other than x86_64 for "
+    "typing/values/layout."
 )
 LEVEL_NOTE = (
     "trusted: Lean kernel; axioms propext/Classical.choice/Quot.sound; Spec.CInt/Spec.CExpr (C11 on LP64, gcc's implementation-defined "
